@@ -189,13 +189,20 @@ fn session(rt: &tokio::runtime::Runtime, rng: &mut Rng, start: (u64, u64), full:
             n
         } };
 
-        let handler_state = Arc::new(Mutex::new((0u64, false, false, 0u64, 0u64, Rng::new(seed)))); // delivered, stopped, dropped, uploads done, faults used, rng
+        let handler_state = Arc::new(Mutex::new((0u64, false, false, 0u64, 0u64, Rng::new(seed), 0u64))); // delivered, stopped, dropped, uploads done, faults used, rng
         {
             let (log, world, rx_cell, hs, drain) = (log.clone(), world.clone(), rx_cell.clone(), handler_state.clone(), drain.clone());
             let stop_tx = stop_tx.clone();
             sim.set_handler(Some(Box::new(move |req: &Req, s: &mut SimState| {
                 if req.is_list() && req.q("max-keys") == Some("1") { log.lock().expect("log").push(json!({"ev": "probe"})); return None; }
                 let mut h = hs.lock().expect("hs");
+                h.6 += 1;
+                progress(|| format!("poll_chunks session, request #{} {}", h.6, req.raw_target));
+                if h.6 > 20_000 {
+                    // a poller that never stops asking: cut it off (every further request fails) and say so
+                    if h.6 == 20_001 { log.lock().expect("log").push(json!({"ev": "runaway", "requests": h.6})); }
+                    return Some(Resp::xml(500, "<Error><Code>Runaway</Code></Error>".into()));
+                }
                 h.0 += drain();
                 if let Some(k) = script.stop_after { if h.0 >= k && !h.1 { h.1 = true; let _ = stop_tx.send(true); log.lock().expect("log").push(json!({"ev": "stop"})); } }
                 if let Some(k) = script.drop_after { if h.0 >= k && !h.2 { h.2 = true; *rx_cell.lock().expect("rx") = None; log.lock().expect("log").push(json!({"ev": "drop"})); } }
@@ -242,7 +249,6 @@ fn session(rt: &tokio::runtime::Runtime, rng: &mut Rng, start: (u64, u64), full:
 
 /// Composition sessions (System.tla): long sessions from the start of a volume so that whole volumes are received.
 fn record_system(args: &Args) {
-    watchdog(2400);
     let mut rng = Rng::new(args.seed);
     let mut res = Results::create(args.res.as_deref().unwrap_or(""));
     let dir = args.out.as_deref().unwrap_or("");
@@ -272,7 +278,6 @@ pub fn run(args: &Args) {
     if args.mode == "replay" { return replay(args); }
     if args.mode == "record-system" { return record_system(args); }
     if args.mode != "record" { eprintln!("poll: unknown mode"); std::process::exit(2); }
-    watchdog(2400);
     let mut rng = Rng::new(args.seed);
     let mut res = Results::create(args.res.as_deref().unwrap_or(""));
     let dir = args.out.as_deref().unwrap_or("");
@@ -293,6 +298,7 @@ pub fn run(args: &Args) {
             _ => Script { stop_after: Some(rng.below(3)), drop_after: None, upload_limit: 100_000, upload_rate: 40, fault_rate: 12, max_faults: 1_000, burst_max: 3, lockstep: false },
         };
         let (start, full) = if k == 7 { ((0, 0), 0) } else { ((start_vol, start_seq), full) };
+        progress(|| format!("poll_chunks session {k} starting at {:?}", start));
         let events = session(&rt, &mut rng, start, full, script, k % 2 == 0, false);
         let deliveries = events.iter().filter(|e| e["ev"] == json!("deliver")).count();
         res.case(fnv(format!("{:?}", events.len()).as_bytes()) ^ k as u64, deliveries >= 2);
@@ -398,7 +404,6 @@ fn scripted_session(rt: &tokio::runtime::Runtime, start: (u64, u64), full: u64, 
 }
 
 fn replay(args: &Args) {
-    watchdog(2400);
     let vectors = read_ndjson(args.input.as_deref().unwrap_or(""));
     let mut res = Results::create(args.out.as_deref().unwrap_or(""));
     for v in &vectors {
